@@ -13,6 +13,7 @@ use serde_json::json;
 
 mod packages;
 mod positions;
+mod tryload;
 mod probes;
 mod filldeps;
 
